@@ -913,14 +913,24 @@ def search_history_vs_fresh(ctx, rebound, fails):
         cfg = L.gen_cluster(rng, tree=tree, line=rng.random() < 0.3, big=tree and rng.random() < 0.4)
         sim = L.make_sim(rebound, cfg)
         ops = V.apply_history(rng, rebound, sim, cfg)
-        f = V.fresh_like(rebound, sim, cfg)
-        if f is None:
-            continue
-        ctx.evaluations += 1
-        a, b = V.handed_set(rebound, sim), V.handed_set(rebound, f)
-        bad = None
         treemode = int(sim._collision) in (2, 5)
-        if (V.unordered(a) != V.unordered(b)) if treemode else (a != b):
+        bad = None
+        stuck = [sim.particles[i].hash.value for i in range(sim.N)
+                 if not all(math.isfinite(getattr(sim.particles[i], c)) for c in ("m", "x", "y", "z", "vx", "vy", "vz", "r"))]
+        f = None
+        if stuck:
+            # finite inputs only: a non-finite particle here is one that was flagged for removal (y = NaN) and is still in the
+            # array after the tree update, i.e. the object no longer holds a state a fresh simulation could be given
+            bad = "particles %s are non-finite (flagged for removal but never taken out by the tree update) after the history %s" % (stuck, ops)
+        else:
+            f = V.fresh_like(rebound, sim, cfg)
+            if f is None:
+                continue
+        ctx.evaluations += 1
+        a, b = (V.handed_set(rebound, sim), V.handed_set(rebound, f)) if f is not None else ([], [])
+        if bad:
+            pass
+        elif (V.unordered(a) != V.unordered(b)) if treemode else (a != b):
             bad = "handed to resolve with history %s but not fresh: %s; fresh but not with history: %s" % (
                 ops, sorted(set(V.unordered(a)) - set(V.unordered(b)))[:3], sorted(set(V.unordered(b)) - set(V.unordered(a)))[:3])
         else:
@@ -928,9 +938,16 @@ def search_history_vs_fresh(ctx, rebound, fails):
                 s_.collision_resolve = "merge"
                 rebound.clibrebound.reb_collision_search(ctypes.byref(s_))
             A, B = V.state_by_hash(sim), V.state_by_hash(f)
-            if set(A) != set(B):
+            if treemode:
+                # the pending array of a tree search legitimately depends on the history (max_radius0/1 are upper bounds, so the
+                # object with history may list a pair in both orientations), hence the shuffle, the processing order and which member
+                # of a chain of overlapping spheres survives: only the total mass is compared
+                ma, mb = math.fsum(v[0] for v in A.values()), math.fsum(v[0] for v in B.values())
+                if abs(ma - mb) > 1e-12 * (abs(ma) + abs(mb) + 1e-300):
+                    bad = "after merging, total mass %r with history %s, %r fresh" % (ma, ops, mb)
+            elif set(A) != set(B):
                 bad = "after merging, history %s keeps %s, fresh keeps %s" % (ops, sorted(set(A) - set(B)), sorted(set(B) - set(A)))
-            elif not treemode and any(not vlib.same_bits(x, y) for h in A for x, y in zip(A[h], B[h])):
+            elif any(not vlib.same_bits(x, y) for h in A for x, y in zip(A[h], B[h])):
                 bad = "after merging, particle data differ between the object with history %s and the fresh one" % ops
         ctx.nontrivial.add(("hvf", cfg["mode"], tuple(sorted(set(ops)))))
         if bad:
